@@ -231,14 +231,22 @@ structure Resolved where
   adducts : Option ModVal
   isotopeMods : Option (List Mod)
 
+/-- the charge in force: the argument, else the annotation's -/
+def effCharge (a : Annotation) (o : Opts) : Option Int :=
+  match o.charge with | some c => some c | none => a.charge
+
+/-- the isotope labels in force: the argument, else the annotation's -/
+def effLabels (a : Annotation) (o : Opts) : Option (List Mod) :=
+  match o.isotopeMods with | some l => some l | none => a.isotope
+
 def resolveArgs (a : Annotation) (o : Opts) : Except Err Resolved := do
-  let charge := match o.charge with | some c => some c | none => a.charge
+  let charge := effCharge a o
   let adducts ← match a.adducts, o.adducts with
     | some l, none => match l with
       | [] => .error .indexError
       | m :: _ => pure (some m.val)
     | _, x => pure x
-  let iso := match o.isotopeMods with | some l => some l | none => a.isotope
+  let iso := effLabels a o
   pure ⟨charge, adducts, iso⟩
 
 /-- the fast path of `mass` (no isotope labels) after argument resolution -/
@@ -270,7 +278,7 @@ def massWith (cm : CompMassFn) (env : Env) (a : Annotation) (o : Opts) : Except 
 
 /-- `mz(...)`: `mass(..., precision=None)` then `adjust_mz`; `use_isotope_on_mods` is not forwarded -/
 def mzWith (cm : CompMassFn) (env : Env) (a : Annotation) (o : Opts) : Except Err Rat := do
-  let charge := match o.charge with | some c => some c | none => a.charge
+  let charge := effCharge a o
   let m ← massWith cm env a { o with charge := charge, precision := none, useIsotopeOnMods := false }
   pure (adjustMz m charge o.precision)
 
